@@ -120,6 +120,7 @@ def c18a(ck, prog):
 def c18b(ck, prog):
     R = "C18-b ORDER sessions"
     howl = prog.coroutine_body(prog.method(r"^ohkami::ohkami::Ohkami$", "howl").key)
+    howl = prog.awaited_inlined(howl, 1, containing=r"Future for ohkami::ohkami::sync::WaitGroup>::poll$|sync::WaitGroup as core::future::future::Future>::poll$")    # the wait after the loop may be an awaited helper
     howl = prog.inlined(howl, 1, r"WaitGroup>?::add$")       # the per-connection step may be a local helper
     add = howl.calls_to(r"sync::(_::)?<impl ohkami::ohkami::sync::WaitGroup>::add$|WaitGroup>?::add$")
     spawn = howl.calls_to(r"::spawn$|spawn_local$|::detach$")
